@@ -1905,6 +1905,14 @@ func main() {
 			workerLocks(a[1], a[2])
 		case "mlife":
 			workerMLife(a[1], a[2])
+		case "setup":
+			workerSetup(a[1], a[2], a[3])
+		case "setupgen": // replay / debugging aid: the scenarios of the set-up stream (seed, thorough?) as JSON
+			var seed uint64
+			fmt.Sscan(a[1], &seed)
+			f, sl := genSUSpecs(vhlib.NewRng(seed), a[2] == "thorough")
+			b, _ := json.Marshal(append(f, sl...))
+			_ = os.WriteFile(a[3], b, 0o644)
 		case "mldebug": // replay aid: every log line of one `ml_a + ml_b` request
 			mlDebug(a[1])
 		case "e2e":
@@ -2145,6 +2153,8 @@ func main() {
 	lockRes := runLockStream(r.Fork(), wdir, nLockMain, nLockTimeout, nLockKnown, func(f func()) { spawn(f) })
 	// metrics requests (PromQL): cancel / timeout at every moment of their life cycle
 	mlRes := runMLStream(r.Fork(), wdir, cfg.Thorough(), func(f func()) { spawn(f) })
+	// the set-up of a log query: forced failure / removal of the query at every point of the set-up
+	suRes := runSUStream(r.Fork(), wdir, cfg.Thorough(), func(f func()) { spawn(f) })
 	var famRes, famKnownRes famResult
 	spawn(func() { famRes = runFamily(wdir, "main", famMain) })
 	// the real substr on the exhaustive grid start -3..8 x length none,-8..8 x 10 strings of 0..8 bytes
@@ -2374,6 +2384,9 @@ func main() {
 
 	// ---- metrics life cycle ----
 	evalMLStream(sum, cfg.Out, mlRes)
+
+	// ---- set-up of a query ----
+	evalSUStream(sum, cfg.Out, suRes)
 
 	// ---- wedge (known class, own process) ----
 	if wedgeOK {
